@@ -6,36 +6,48 @@
 name: str_done.empty
 define: VP=str, U_DONE, U_EMPTY
 src: str.c, obj.c
+native: str
+native_includes: str.c
 enforce: spif_str_done
 */
 /*@unit
 name: str_done.nonempty
 define: VP=str, U_DONE, U_NONEMPTY
 src: str.c, obj.c
+native: str
+native_includes: str.c
 enforce: spif_str_done
 */
 /*@unit
 name: str_del.empty
 define: VP=str, U_DEL, U_EMPTY
 src: str.c, obj.c
+native: str
+native_includes: str.c
 enforce: spif_str_del
 */
 /*@unit
 name: str_del.nonempty
 define: VP=str, U_DEL, U_NONEMPTY
 src: str.c, obj.c
+native: str
+native_includes: str.c
 enforce: spif_str_del
 */
 /*@unit
 name: str_new
 define: VP=str, U_NEW
 src: str.c, obj.c
+native: str
+native_includes: str.c
 enforce: spif_str_new
 */
 /*@unit
 name: str_new_from_ptr
 define: VP=str, U_NEW_FROM_PTR
 src: str.c, obj.c
+native: str
+native_includes: str.c
 enforce: spif_str_new_from_ptr
 backend: sat,z3
 timeout: 200
@@ -45,6 +57,8 @@ flags: --slice-formula
 name: str_new_from_buff
 define: VP=str, U_NEW_FROM_BUFF
 src: str.c, obj.c
+native: str
+native_includes: str.c
 enforce: spif_str_new_from_buff
 backend: sat,z3
 timeout: 200
@@ -54,6 +68,8 @@ flags: --slice-formula
 name: str_new_from_num
 define: VP=str, U_NEW_FROM_NUM
 src: str.c, obj.c
+native: str
+native_includes: str.c
 enforce: spif_str_new_from_num
 backend: sat,z3
 timeout: 200
@@ -63,36 +79,48 @@ flags: --slice-formula
 name: ustr_done.empty
 define: VP=ustr, U_DONE, U_EMPTY
 src: ustr.c, obj.c
+native: str
+native_includes: ustr.c
 enforce: spif_ustr_done
 */
 /*@unit
 name: ustr_done.nonempty
 define: VP=ustr, U_DONE, U_NONEMPTY
 src: ustr.c, obj.c
+native: str
+native_includes: ustr.c
 enforce: spif_ustr_done
 */
 /*@unit
 name: ustr_del.empty
 define: VP=ustr, U_DEL, U_EMPTY
 src: ustr.c, obj.c
+native: str
+native_includes: ustr.c
 enforce: spif_ustr_del
 */
 /*@unit
 name: ustr_del.nonempty
 define: VP=ustr, U_DEL, U_NONEMPTY
 src: ustr.c, obj.c
+native: str
+native_includes: ustr.c
 enforce: spif_ustr_del
 */
 /*@unit
 name: ustr_new
 define: VP=ustr, U_NEW
 src: ustr.c, obj.c
+native: str
+native_includes: ustr.c
 enforce: spif_ustr_new
 */
 /*@unit
 name: ustr_new_from_ptr
 define: VP=ustr, U_NEW_FROM_PTR
 src: ustr.c, obj.c
+native: str
+native_includes: ustr.c
 enforce: spif_ustr_new_from_ptr
 backend: sat,z3
 timeout: 200
@@ -102,6 +130,8 @@ flags: --slice-formula
 name: ustr_new_from_buff
 define: VP=ustr, U_NEW_FROM_BUFF
 src: ustr.c, obj.c
+native: str
+native_includes: ustr.c
 enforce: spif_ustr_new_from_buff
 backend: sat,z3
 timeout: 200
@@ -111,6 +141,8 @@ flags: --slice-formula
 name: ustr_new_from_num
 define: VP=ustr, U_NEW_FROM_NUM
 src: ustr.c, obj.c
+native: str
+native_includes: ustr.c
 enforce: spif_ustr_new_from_num
 backend: sat,z3
 timeout: 200
